@@ -496,6 +496,30 @@ def main():
                 elif st != "ok":
                     failures.append((hn, o, res))
 
+    # ---------------- phase 1b: every atom alone under a few option sets (batching masks nothing)
+    if want("alone") and not ck.expired(reserve=120):
+        aopts = [L.Opt.from_key(k) for k in ("c+fnames", "python+fnames", "python-native",
+                                             "c+string+promiscuous", "python+string+promiscuous",
+                                             "python-native+string+promiscuous")]
+        ajobs = [(a.name, o) for o in aopts for a in L.ATOMS if a.group != "adversarial"]
+
+        def runa(j):
+            a, o = j
+            return j, evaluate(b, os.path.join(root, "alone"), [a], o, "%s@%s" % (a, o.key), mode_for(o))
+        for (a, o), res in pmap(runa, ajobs):
+            st = res["status"]
+            if st == "empty":
+                continue
+            ck.note("alone|%s|%s" % (a, o.key), nontrivial=(st not in ("rejected", "noexit0") and res["wrappers"] > 0),
+                    outcome=("ok:" if st == "ok" else st + ":") + o.backend, family="atom-alone",
+                    sample={"atom": a, "options": o.argv(), "status": st, "wrappers": res["wrappers"]})
+            if st == "noexit0":
+                ck.extra.setdefault("exit_nonzero_cases", []).append(
+                    {"case": "alone|%s|%s" % (a, o.key), "stderr": res.get("stderr", "")[-300:]})
+            elif st != "ok":
+                failures.append(("alone-" + a, o, res))
+                hdr_atoms["alone-" + a] = [a]
+
     # ---------------- phase 2: split failing headers into atoms, group, confirm, report
     if failures:
         iso_jobs = []
